@@ -260,8 +260,7 @@ Lemma terms_facet_spec f size ms r :
   (* Total, Other, Missing *)
   fr_total r = total_spec ms /\
   fr_other r + zsum (map snd (fr_entries r)) = fr_total r /\
-  fr_other r = rejected_spec f ms +
-               zsum (map snd (skipn (Z.to_nat size) (sort_entries (tb_counts (tfb_run f ms))))) /\
+  fr_other r = rejected_spec f ms + unlisted_spec f ms (fr_entries r) /\
   fr_missing r = missing_spec f ms.
 Proof.
   intros Hr. unfold terms_facet, tfb_result in Hr.
@@ -278,7 +277,12 @@ Proof.
   split.
   { intros t Hb Hnin. apply H4; [apply buckets_iff; exact Hb|exact Hnin]. }
   split; [congruence|]. split; [exact H7|]. split; [|congruence].
-  rewrite H8. unfold csum in Hcs. rewrite Hcs, Htot. pose proof (total_accepted_rejected f ms). lia.
+  rewrite H8. unfold csum in Hcs. rewrite Hcs, Htot. pose proof (total_accepted_rejected f ms).
+  assert (Hent : fr_entries r = firstn (Z.to_nat size) (sort_entries (tb_counts (tfb_run f ms)))).
+  { apply finish_some in Hr. apply Hr. }
+  unfold unlisted_spec. rewrite Hent.
+  rewrite <- (skipn_sum_unlisted _ (fun k => occ f k ms) _ (buckets f ms) Hwf Hget);
+    [lia|apply dedup_NoDup|intros k; apply buckets_iff].
 Qed.
 
 (* ---------- permutation invariance ---------- *)
